@@ -1,6 +1,7 @@
 import LokiModel.C06.Model
 import LokiModel.Fir.Sem
 import LokiModel.Generated.C35Tables
+import LokiModel.C10.Model
 /-!
 # C35 model: Fortran → C transpilation, subscripts, operators, argument passing
 
@@ -116,5 +117,24 @@ def passBy (isArray : Bool) (intent : String) : Option String :=
 /-- whether the ISO-C interface of the wrapper declares the dummy with `VALUE` -/
 def ifaceValue (isArray : Bool) (intent : String) : Option Bool :=
   (Tables.passTable.find? fun r => r.1 == isArray && r.2.1 == intent).map (·.2.2.2)
+
+end LokiModel.C35
+
+/-! ### loops: `CCodegen.visit_Loop` prints `for (i = s; i <crit> e; i += c)` -/
+namespace LokiModel.C35
+
+/-- the values of `i` for which the body of `for (i = …; i <= e; i += c)` (`le = true`) resp. `i >= e` runs, starting from `i`;
+`fuel` bounds the number of iterations (C itself has no bound; the theorem says which fuel suffices) -/
+def cFor (le : Bool) (e c : Int) : Nat → Int → List Int
+  | 0, _ => []
+  | f + 1, i => if (if le then i ≤ e else e ≤ i) then i :: cFor le e c f (i + c) else []
+
+/-- the criterion `visit_Loop` chooses: `<=` when the step is absent or `symbolic_op(step, gt, 0)` holds, else `>=` -/
+def critLe : Option Int → Bool
+  | none => true
+  | some c => decide (0 < c)
+
+/-- iteration values of the generated `for` header for `DO i = s, e[, st]` -/
+def cLoopSeq (s e : Int) (st : Option Int) (fuel : Nat) : List Int := cFor (critLe st) e (st.getD 1) fuel s
 
 end LokiModel.C35
